@@ -28,6 +28,7 @@ import (
 	"strconv"
 	"strings"
 	"sync"
+	"sync/atomic"
 	"time"
 
 	"github.com/pingcap/failpoint"
@@ -274,12 +275,36 @@ type gate struct {
 
 	cancel   context.CancelFunc
 	exceeded bool
+
+	inflight int32           // requests inside the gate right now
+	epoch    int             // call counter (a held request that wakes up in a later epoch is late)
+	held     []chan struct{} // requests held at the gate
+	lateWG   sync.WaitGroup
+	late     int // requests that reached the store after their call had returned
+}
+
+const holdGrace = 150 * time.Millisecond
+
+// releaseHeld lets every held request through and waits until they are done
+func (g *gate) releaseHeld() {
+	g.mu.Lock()
+	for _, c := range g.held {
+		close(c)
+	}
+	g.mu.Unlock()
+	g.lateWG.Wait()
+}
+func (g *gate) heldNow() int {
+	g.mu.Lock()
+	defer g.mu.Unlock()
+	return len(g.held)
 }
 
 func (g *gate) reset(inj []Inject) {
 	g.mu.Lock()
 	defer g.mu.Unlock()
 	g.n, g.rerrs, g.other = 0, 0, 0
+	g.epoch++
 	g.exceeded = false
 	g.lays, g.bats, g.wire = nil, nil, nil
 	g.inj = map[int]Topo{}
@@ -299,7 +324,43 @@ func isRaw(t tikvrpc.CmdType) bool {
 }
 
 func (g *gate) SendRequest(ctx context.Context, addr string, req *tikvrpc.Request, timeout time.Duration) (*tikvrpc.Response, error) {
+	atomic.AddInt32(&g.inflight, 1)
+	defer atomic.AddInt32(&g.inflight, -1)
 	g.mu.Lock()
+	if act, ok := g.inj[g.n+1]; ok && act.Kind == "hold" && isRaw(req.Type) {
+		// HOLD: the request waits at the gate (the gate itself stays open) until the call cancels it, the driver
+		// releases it, or a short grace period ends (calls with a single request would otherwise wait for ever).
+		// A correct call cancels or awaits its requests before it returns, so none is still held at return.
+		g.n++
+		epoch := g.epoch
+		ch := make(chan struct{})
+		g.held = append(g.held, ch)
+		g.lateWG.Add(1)
+		defer g.lateWG.Done()
+		g.mu.Unlock()
+		select {
+		case <-ctx.Done():
+		case <-ch:
+		case <-time.After(holdGrace):
+		}
+		g.mu.Lock()
+		defer g.mu.Unlock()
+		for i, c := range g.held {
+			if c == ch {
+				g.held = append(g.held[:i], g.held[i+1:]...)
+				break
+			}
+		}
+		if ctx.Err() != nil {
+			return nil, ctx.Err() // cancelled by its call: never executed
+		}
+		if g.epoch != epoch {
+			// its call has already returned: the request reaches the store AFTER the return
+			g.late++
+			return g.inner.SendRequest(ctx, addr, req, timeout)
+		}
+		return g.forwardAndLog(ctx, addr, req, timeout)
+	}
 	defer g.mu.Unlock()
 	if !isRaw(req.Type) {
 		g.other++
@@ -348,6 +409,11 @@ func (g *gate) SendRequest(ctx context.Context, addr string, req *tikvrpc.Reques
 			g.w.apply(act)
 		}
 	}
+	return g.forwardAndLog(ctx, addr, req, timeout)
+}
+
+// forwardAndLog (gate locked): the request goes to the store; what a served request looked like is recorded
+func (g *gate) forwardAndLog(ctx context.Context, addr string, req *tikvrpc.Request, timeout time.Duration) (*tikvrpc.Response, error) {
 	resp, err := g.inner.SendRequest(ctx, addr, req, timeout)
 	if err != nil || resp == nil {
 		return resp, err
@@ -560,6 +626,8 @@ func runSeq(sq Seq, out *bytes.Buffer) {
 		_ = cli.Put(ctx, []byte("zz"), []byte("x"))
 		_ = cli.Delete(ctx, []byte("zz"))
 	}
+	releaseAfterThis := false
+	defer g.releaseHeld()
 	for idx, op := range sq.Ops {
 		if op.Name == "setatomic" {
 			// the client's atomic-mode field: for_cas of every later write, and whether CAS is allowed
@@ -597,7 +665,16 @@ func runSeq(sq Seq, out *bytes.Buffer) {
 			args = argsOf(op)
 			_, res = execOp(opCtx, cli, op)
 		}()
-		cancel()
+		g.mu.Lock()
+		g.epoch++ // the call has returned: whatever reaches the store from now on is late
+		g.mu.Unlock()
+		if atomic.LoadInt32(&g.inflight) == 0 {
+			cancel()
+		} else {
+			// requests of the call are still in flight: the caller's context stays alive (as a long-lived
+			// application context would), so that they can be seen reaching the store after the return
+			defer cancel()
+		}
 		g.mu.Lock()
 		lays := strings.Join(g.lays, ";")
 		if len(g.lays) == 0 {
@@ -611,6 +688,9 @@ func runSeq(sq Seq, out *bytes.Buffer) {
 		if len(g.wire) == 0 {
 			wire = "none"
 		}
+		// requests of this call that are still inside the gate now that the call has returned (must be 0:
+		// a call cancels or awaits every request it started)
+		outlive := int(atomic.LoadInt32(&g.inflight))
 		if g.exceeded {
 			res = "err does-not-terminate"
 		}
@@ -626,9 +706,17 @@ func runSeq(sq Seq, out *bytes.Buffer) {
 		if opcf == "" {
 			opcf = cf
 		}
-		fmt.Fprintf(out, "OP\t%d\t%d\t%s\t%s\tC=%s\tA=%d\tL=%s\tB=%s\tN=%d,%d,%d\tW=%s\t=>\t%s\n", sq.ID, idx, op.Name, args, opcf, atomicFlag, lays, bats, g.n, g.rerrs, exact, wire, res)
+		fmt.Fprintf(out, "OP\t%d\t%d\t%s\t%s\tC=%s\tA=%d\tL=%s\tB=%s\tN=%d,%d,%d,%d\tW=%s\t=>\t%s\n", sq.ID, idx, op.Name, args, opcf, atomicFlag, lays, bats, g.n, g.rerrs, exact, outlive, wire, res)
 		stop := g.exceeded
 		g.mu.Unlock()
+		if releaseAfterThis {
+			// the requests a previous call left behind reach the store now, after a later call was acknowledged
+			g.releaseHeld()
+			releaseAfterThis = false
+		}
+		if outlive > 0 {
+			releaseAfterThis = true
+		}
 		tolerated := res == "err injected" || res == "err atomic" || res == "err limit" || res == "err args"
 		// ("err unsupported" ends the sequence: the unanswerable GetKeyTTL leaves the store marked unreachable)
 		if stop || (strings.HasPrefix(res, "err") && !tolerated) || strings.HasPrefix(res, "panic") {
@@ -1046,6 +1134,19 @@ func genSeq(id int, r *rand.Rand, nops int) Seq {
 			op.Inj = append(op.Inj, Inject{At: 1 + r.Intn(2), Act: Topo{Kind: kind}})
 			failing = true
 		}
+		if class == "fail" && (op.Name == "bput" || op.Name == "bdel") && !failing && len(op.Keys) >= 2 && r.Intn(2) == 0 {
+			// one request of the call is held at the gate while a sibling fails: the call must cancel (or await) the
+			// held one before it returns; the next call writes the same keys, then everything is read back
+			op.Inj = []Inject{{At: 1, Act: Topo{Kind: "hold"}}, {At: 2, Act: Topo{Kind: "fail"}}}
+			failing = true
+			sq.Ops = append(sq.Ops, op)
+			again := Op{Name: "bput", Keys: op.Keys}
+			for range op.Keys {
+				again.Vals = append(again.Vals, hx(g.val()))
+			}
+			sq.Ops = append(sq.Ops, again, Op{Name: "scan", S: "-", E: "-", Limit: 5000})
+			continue
+		}
 		if class == "fail" && op.Name == "bput" && !failing && r.Intn(6) == 0 && len(op.Keys) > 0 {
 			// argument errors: refused before any request
 			if r.Intn(2) == 0 {
@@ -1160,6 +1261,20 @@ func directedSeqs(base int) []Seq {
 		{Name: "drange", S: "-", E: "-", Inj: []Inject{{At: 1, Act: Topo{"split", "6300"}}, {At: 3, Act: Topo{Kind: "fail"}}}},
 		{Name: "scan", S: "-", E: "-", Limit: 100},
 		{Name: "bput", Keys: []string{a, b, c}, Vals: []string{"51", "52", "53"}, Inj: []Inject{{At: 1, Act: Topo{"merge", b}}, {At: 3, Act: Topo{Kind: "fail"}}}},
+		{Name: "scan", S: "-", E: "-", Limit: 100},
+	}})
+	// a request held at the gate while a sibling batch fails: cancelled or awaited, never left behind
+	seqs = append(seqs, Seq{Stores: 1, Splits: []string{b, c}, Ops: []Op{
+		{Name: "bput", Keys: []string{a, b, c}, Vals: []string{"31", "32", "33"}},
+		{Name: "bput", Keys: []string{a, b, c}, Vals: []string{"41", "42", "43"}, Inj: []Inject{{At: 1, Act: Topo{Kind: "hold"}}, {At: 2, Act: Topo{Kind: "fail"}}}},
+		{Name: "bput", Keys: []string{a, b, c}, Vals: []string{"51", "52", "53"}},
+		{Name: "scan", S: "-", E: "-", Limit: 100},
+		{Name: "bdel", Keys: []string{a, b, c}, Inj: []Inject{{At: 1, Act: Topo{Kind: "hold"}}, {At: 2, Act: Topo{Kind: "fail"}}}},
+		{Name: "bput", Keys: []string{a, b, c}, Vals: []string{"61", "62", "63"}},
+		{Name: "scan", S: "-", E: "-", Limit: 100},
+		{Name: "bget", Keys: []string{a, b, c}, Inj: []Inject{{At: 1, Act: Topo{Kind: "hold"}}}},
+		{Name: "scan", S: "-", E: "-", Limit: 2, Inj: []Inject{{At: 2, Act: Topo{Kind: "hold"}}}},
+		{Name: "drange", S: a, E: "6300", Inj: []Inject{{At: 1, Act: Topo{Kind: "hold"}}, {At: 2, Act: Topo{Kind: "fail"}}}},
 		{Name: "scan", S: "-", E: "-", Limit: 100},
 	}})
 	// column families are separate maps; Checksum has no family (the mock reads CF_DEFAULT);
